@@ -32,6 +32,7 @@ CFG = {
     "compare": "exact",
     "nontrivial": _nontrivial,
     "gen_timeout": 1500,
+    "search_budget_s": 10,
     "rule": "scenarios: UTxO tables of 1-40 UTxOs (amounts over all CBOR width classes and 64-bit edges, 0-30 assets over 1-6 policies, asset "
             "bundles larger than max_value_size), requested outputs (plain / datum hash / inline datum / script ref, with and without "
             "assets), certificates of all 19 kinds with deposits and refunds, withdrawals, proposals, native-script mint and burn through "
